@@ -71,7 +71,7 @@ theorem prelude_tr (fx : FX R) (x : Nat → V3 R) (F : List Face) (p : Params R)
 theorem internalContribs_tr (fx : FX R) (x : Nat → V3 R) (F : List Face) (p : Params R) (hc : Closed F) (t : V3 R) :
     internalContribs fx (fun i => x i + t) F p = internalContribs fx x F p := by
   simp only [internalContribs, prelude_tr fx x F p hc t, pressureContribs, tensionContribs, bendingContribs,
-    angleContribs, faceGeom_tr, tensionFace_tr, angleFace_tr, bendingHinge_tr]
+    bendingContribsOf, angleContribs, faceGeom_tr, tensionFace_tr, angleFace_tr, bendingHinge_tr]
 
 
 /-! ### rotation -/
@@ -215,7 +215,7 @@ theorem internalContribs_rot (hM : Rot M) (fx : FX R) (hfin : FiniteOK fx) (x : 
         simp only [mapContribs, map3, List.map_cons, List.map_nil]
       · simp only [tensionContribs, mapContribs_flatMap, faceGeom_rot hM, tensionFace_rot hM]
         simp only [mapContribs, map3, List.map_cons, List.map_nil]
-    · unfold bendingContribs
+    · unfold bendingContribs bendingContribsOf
       split_ifs
       · rfl
       · simp only [mapContribs_flatMap, faceGeom_rot hM, bendingHinge_rot hM]
